@@ -253,3 +253,70 @@ Fixpoint fact_loop (bs : list ballot) (mult : list (ballot * N)) (new : list bal
 Definition factorise_instance (reset_multiplicity : bool) (prefs : list ballot) (mult : list (ballot * N))
   : list ballot * list (ballot * N) :=
   fact_loop prefs (if reset_multiplicity then [] else mult) [].
+
+(* ---- a checker for conversion results (executable; proved sound and complete in Proofs/FromOrdinal.v) ----
+   Used by the harness in the relative mode, where the property claims the partition / padding /
+   conservation clauses but no particular category sizes. *)
+(* cat = c ++ rest  ->  Some rest *)
+Fixpoint strip_prefix (c cat : list N) : option (list N) :=
+  match c with
+  | [] => Some cat
+  | x :: c' =>
+      match cat with
+      | [] => None
+      | y :: cat' => if N.eqb x y then strip_prefix c' cat' else None
+      end
+  end.
+
+(* consume whole leading classes of o that spell out cat; what is left of o *)
+Fixpoint fill (o : order) (cat : list N) {struct o} : option order :=
+  match cat with
+  | [] => Some o
+  | _ :: _ =>
+      match o with
+      | [] => None
+      | c :: o' => match strip_prefix c cat with Some rest => fill o' rest | None => None end
+      end
+  end.
+
+Fixpoint partition_check (o : order) (b : ballot) : bool :=
+  match b with
+  | [] => match o with [] => true | _ :: _ => false end
+  | cat :: b' => match fill o cat with Some o' => partition_check o' b' | None => false end
+  end.
+
+(* all ways of picking one element from each list *)
+Fixpoint choices {T} (cands : list (list T)) : list (list T) :=
+  match cands with
+  | [] => [[]]
+  | c :: cs => flat_map (fun x => map (cons x) (choices cs)) c
+  end.
+
+Fixpoint wsum_b (b : ballot) (items : list (ballot * N)) : N :=
+  match items with
+  | [] => 0
+  | (k, m) :: items' => (if ballot_eqb b k then m else 0) + wsum_b b items'
+  end.
+
+Fixpoint nodupb (l : list ballot) : bool :=
+  match l with
+  | [] => true
+  | x :: l' => negb (mem x l') && nodupb l'
+  end.
+
+(* assign : the ballot chosen for each source order *)
+Definition assignment_ok (prefs : list ballot) (mult : list (ballot * N)) (ms : list N)
+           (assign : list ballot) : bool :=
+  forallb (fun b => mem b assign &&
+                    match lookup b mult with
+                    | Some v => N.eqb v (wsum_b b (combine assign ms))
+                    | None => false
+                    end) prefs.
+
+Definition conv_check (src : list (order * N)) (prefs : list ballot) (mult : list (ballot * N)) (k : N)
+  : bool :=
+  nodupb prefs && nodupb (map fst mult)
+  && forallb (fun b => mem b (map fst mult)) prefs && forallb (fun b => mem b prefs) (map fst mult)
+  && forallb (fun b => lenN b =? k) prefs
+  && existsb (assignment_ok prefs mult (map snd src))
+             (choices (map (fun om => filter (partition_check (fst om)) prefs) src)).
